@@ -55,11 +55,60 @@ let handle_multi rcpts ls outs =
       end
   | _ -> Mlutil.print_model ["NO-OBSERVATION"] "fail:no-observation"
 
+(* seq <store[:cap[:maxkb]]> <k> <lines>: k transactions on one connection to mailbox box; transaction t carries the header
+   "X-Seq: t" and the lines without the last t-1; every accepted one is one message, in order; the cap (if any) keeps the
+   most recent ones; all are read back after the last one was stored *)
+let handle_seq store k ls outs =
+  let ls = if ls = "-" then [] else List.map str_of_field (String.split_on_char ',' ls) in
+  let k = int_of_string k in
+  let cap = match String.split_on_char ':' store with
+    | _ :: c :: _ when c <> "" -> int_of_string c | _ -> 0 in
+  let rec take n l = if n <= 0 then [] else match l with [] -> [] | x :: r -> x :: take (n - 1) r in
+  let body t = joined_lf (s (Printf.sprintf "X-Seq: %d" t) :: take (List.length ls - (t - 1)) ls) in
+  match outs with
+  | [_; copies; status] ->
+      let hdr = List.hd (String.split_on_char ':' status) in
+      let st = String.concat ":" (List.tl (String.split_on_char ':' status)) in
+      let flags = if hdr = "nocall" then "" else hdr in
+      let ok t = t <= String.length flags && flags.[t - 1] = '1' in
+      let replies = String.concat "," (["250"] @ List.concat (List.init k (fun i ->
+        ["250"; "250"; "354"; (if ok (i + 1) then "250" else "451")])) @ ["221"]) in
+      let accepted = List.filter ok (List.init k (fun i -> i + 1)) in
+      let kept = if cap > 0 && List.length accepted > cap
+        then (let d = List.length accepted - cap in List.filteri (fun i _ -> i >= d) accepted) else accepted in
+      let want = List.mapi (fun i t ->
+        let src = expected_for "box" (body t) in
+        let len = string_of_int (String.length src) in
+        String.concat ":" [Printf.sprintf "box.%d" (i + 1); Mlutil.hex src; len; "="; "="; "="; len; len]) kept in
+      let model_copies = if want = [] then "-" else String.concat "," want in
+      let got = if copies = "-" then [] else String.split_on_char ',' copies in
+      let v = ref [] in
+      let add x = if not (List.mem x !v) then v := !v @ [x] in
+      if String.length flags <> k then add "read-interface-error";
+      if List.length got <> List.length want then add "messages-stored-differ-from-transactions-acknowledged";
+      if List.length got = List.length want then
+        List.iter2 (fun g w ->
+          match String.split_on_char ':' g, String.split_on_char ':' w with
+          | [gn; gsrc; gsize; grest; gui; gpop; grs; gps], [wn; wsrc; _; _; _; _; _; _] ->
+              if gn <> wn then add "messages-stored-differ-from-transactions-acknowledged";
+              if gsrc <> wsrc then add "stored-source-differs-from-transmitted-bytes";
+              if grest <> "=" then add "rest-source-differs-from-store";
+              if gui <> "=" then add "webui-source-differs-from-store";
+              if gpop <> "=" then add "pop3-retr-differs-from-store";
+              let len = if gsrc = "-" then 0 else String.length gsrc / 2 in
+              if gsize <> string_of_int len || grs <> gsize || gps <> gsize then add "reported-size-differs-from-source-length"
+          | _ -> add "read-interface-error") got want;
+      if st <> "ok" then add "read-interface-error";
+      let verdict = if !v = [] then "ok" else "fail:" ^ String.concat ";" !v in
+      Mlutil.print_model [replies; model_copies; (if flags = "" then "nocall" else flags) ^ ":ok"] verdict
+  | _ -> Mlutil.print_model ["NO-OBSERVATION"] "fail:no-observation"
+
 let () =
   Mlutil.iter_lines (fun line ->
     let (kind, ins, outs) = Mlutil.split_case line in
     match kind, ins with
     | "multi", [_; rcpts; ls] -> handle_multi rcpts ls outs
+    | "seq", [store; k; ls] -> handle_seq store k ls outs
     | _ ->
     let wire_spec =
       match kind, ins with
